@@ -66,6 +66,11 @@ def families(tier):
     #      ordinary rules, their removal is "<negation word> <row>"
     add("F17-negation-word-prefix-heads", [[Rule("node *"), Rule("undoer *"), Rule("deleter *")],
                                            [Rule("a *", [Rule("node"), Rule("undoer *"), Rule("deleter")])]])
+    # F18: one block row fits two block rules that both have children (huawei.rul: 'interface */Tunnel.+/' before
+    #      'interface *'): the first gives rule, key and logic, the children of both apply inside the block
+    add("F18-overlapping-block-rules", [[Rule("a 9", [Rule("c *")]), Rule("a *", [Rule("d *")])],
+                                        [Rule("a 9", [Rule("c")], logic="undo_redo"), Rule("a *", [Rule("d *"), Rule("e")])],
+                                        [Rule("b"), Rule("a 9 ~", [Rule("c *")]), Rule("a ~", [Rule("d")])]])
     if tier == "thorough":
         # F6: depth 3
         add("F6-depth3", [[Rule("a *", [Rule("c *", [Rule(shape(s, "e"), **f)])])]
